@@ -363,6 +363,13 @@ class Duration(timedelta):
     def _to_microseconds(self) -> int:
         return (self._days * (24 * 3600) + self._seconds) * 1000000 + self._microseconds
 
+    @staticmethod
+    def _delta_to_microseconds(delta: timedelta) -> int:
+        if isinstance(delta, Duration):
+            return delta._to_microseconds()
+
+        return (delta.days * (24 * 3600) + delta.seconds) * 1000000 + delta.microseconds
+
     def __mul__(self, other: int | float) -> Self:
         if isinstance(other, int):
             return self.__class__(
@@ -396,7 +403,7 @@ class Duration(timedelta):
         usec = self._to_microseconds()
         if isinstance(other, timedelta):
             return cast(
-                int, usec // other._to_microseconds()  # type: ignore[attr-defined]
+                int, usec // self._delta_to_microseconds(other)
             )
 
         if isinstance(other, int):
@@ -423,7 +430,7 @@ class Duration(timedelta):
         usec = self._to_microseconds()
         if isinstance(other, timedelta):
             return cast(
-                float, usec / other._to_microseconds()  # type: ignore[attr-defined]
+                float, usec / self._delta_to_microseconds(other)
             )
 
         if isinstance(other, int):
@@ -450,7 +457,7 @@ class Duration(timedelta):
 
     def __mod__(self, other: timedelta) -> Self:
         if isinstance(other, timedelta):
-            r = self._to_microseconds() % other._to_microseconds()  # type: ignore[attr-defined] # noqa: E501
+            r = self._to_microseconds() % self._delta_to_microseconds(other)
 
             return self.__class__(0, 0, r)
 
@@ -460,7 +467,7 @@ class Duration(timedelta):
         if isinstance(other, timedelta):
             q, r = divmod(
                 self._to_microseconds(),
-                other._to_microseconds(),  # type: ignore[attr-defined]
+                self._delta_to_microseconds(other),
             )
 
             return q, self.__class__(0, 0, r)
